@@ -36,7 +36,10 @@ def unicode_family():
             {"id": "U3", "rules": {"Root": [P(0, "[\\x{80}-\\x{10FFFF}]"), P(1, "\\P{Greek}"), P(2, "(?s).")]}},
             {"id": "U4", "rules": {"Root": [P(0, "[\\p{Greek}\\p{Cyrillic}]+a?"), P(1, "[^a]")]}},
             {"id": "U5", "rules": {"Root": [P(0, "[^\u00e9a]+"), P(1, "(?s).")]}},
-            {"id": "U6", "rules": {"Root": [P(0, "a[^\u03b1\u00e9]*"), P(1, "\\P{Greek}+"), P(2, "(?s).")]}}], list("aAGOJexT")
+            {"id": "U6", "rules": {"Root": [P(0, "a[^\u03b1\u00e9]*"), P(1, "\\P{Greek}+"), P(2, "(?s).")]}},
+            # a class of Latin-1 letters (code points 0xC0-0xFF, two bytes each) met by longer runes whose LEAD BYTE has such a value
+            {"id": "U7", "rules": {"Root": [P(0, "[\u00c0-\u00ff]+"), P(1, "a"), P(2, "(?s).")]}},
+            {"id": "U8", "rules": {"Root": [P(0, "[\u00e9\u00ce\u00f0]a?"), P(1, "[^a]")]}}], list("aAGOJexT")
 
 
 def alpha(names):
@@ -198,6 +201,7 @@ def curated_gen():
     add({"Root": [P(0, "a", act="push", state="S1"), P(1, "b", act="push", state="S2"), P(2, "c")],
          "S1": [P(3, "c"), P(0, "a", act="push", state="S1"), P(4, "e", act="pop")],
          "S2": [P(5, "\\("), P(1, "b", act="push", state="S2"), P(4, "e", act="pop")]})
+    add({"Root": [named("tok", "a+"), named("Tok", "[ab]"), P(2, "(?s).")]})        # names differing only in the case of the first letter
     return G
 
 
